@@ -4,6 +4,7 @@ import PgsVerif.Model.NameSplit
 import PgsVerif.Model.Params
 import PgsVerif.Model.Comment
 import PgsVerif.Model.Context
+import PgsVerif.Model.Persist
 /-
   JSON glue: one `Engine` per correspondence.  Only decoding/encoding lives here; every function
   called is the very definition the theorems in `PgsVerif/Props` are about.
@@ -137,7 +138,47 @@ def engine : Engine :=
     (fun i o => judge i.output i.params (i.ops.map OpJ.toOp) o)
 end C18
 
+/-! ### C10 / C12 persister -/
+namespace Persist
+structure ArtJ where
+  k : String
+  name : Bytes
+  ip : Bytes
+  text : Bytes
+  fails : Bool
+  ow : Bool
+  tpl : Bool
+  perms : Nat
+deriving FromJson, ToJson
+def ArtJ.toArt (a : ArtJ) : Art :=
+  match a.k with
+  | "file" => .file a.name ⟨a.text, a.fails⟩ a.ow a.tpl
+  | "app" => .app a.name ⟨a.text, a.fails⟩ a.tpl
+  | "inj" => .inj a.name a.ip ⟨a.text, a.fails⟩ a.tpl
+  | "custom" => .custom a.name ⟨a.text, a.fails⟩ a.perms a.ow a.tpl
+  | "err" => .err a.text
+  | _ => .unknown
+deriving instance FromJson, ToJson for Proc
+deriving instance FromJson, ToJson for FileEnt
+deriving instance FromJson, ToJson for RF
+deriving instance FromJson, ToJson for Probe
+deriving instance FromJson, ToJson for Obs
+structure InJ where
+  arts : List ArtJ
+  procs : List Proc
+  features : Option Nat
+  fs0 : List FileEnt
+  dirs0 : List Bytes
+  probes : List Bytes
+deriving FromJson, ToJson
+def InJ.toIn (i : InJ) : In := ⟨i.arts.map ArtJ.toArt, i.procs, i.features, i.fs0, i.dirs0, i.probes⟩
+def engineC10 : Engine :=
+  mkEngine (I := InJ) (O := Obs) (fun i => model i.toIn) (fun _ => true) (fun i o => judgeC10 i.toIn o)
+def engineC12 : Engine :=
+  mkEngine (I := InJ) (O := Obs) (fun i => model i.toIn) (fun i => domC12 i.toIn) (fun i o => judgeC12 i.toIn o)
+end Persist
+
 def engines : List (String × Engine) :=
-  [ ("c11", C11.engine), ("fp", FP.engine), ("c15", C15.engine), ("c19", C19.engine), ("c20", C20.engine), ("c18", C18.engine) ]
+  [ ("c11", C11.engine), ("fp", FP.engine), ("c15", C15.engine), ("c19", C19.engine), ("c20", C20.engine), ("c18", C18.engine), ("c10", Persist.engineC10), ("c12", Persist.engineC12), ("c11p", Persist.engineC10) ]
 
 end Pgs
